@@ -141,6 +141,9 @@ func exec1(rec any) *core.Outcome {
 	var all strings.Builder
 	for _, n := range res.Names {
 		if e := res.WriteErr[n]; e != "" {
+			if os.Getenv("C09_DEBUG") != "" {
+				fmt.Println("WRITEERR", n, e, r.Front.Faults)
+			}
 			out.Observe("write_error_after_abort")
 			out.ObsHash = "writeerr"
 			return out
@@ -347,6 +350,22 @@ func exec1(rec any) *core.Outcome {
 						kind = "local"
 					}
 					out.Violate(P, "qualified-reference-captured:"+kind, fmt.Sprintf("%s: the reference to %q.%s built by the front end appears as %s", fname, k.path, k.name, captured))
+					return out
+				}
+				// or the selector is there but its left side is not declared at all: the
+				// file lacks the import (or names it differently)
+				unresolved := ""
+				ast.Inspect(f, func(n ast.Node) bool {
+					if se, ok := n.(*ast.SelectorExpr); ok && se.Sel.Name == k.name {
+						if id, ok := se.X.(*ast.Ident); ok && info.Uses[id] == nil && info.Defs[id] == nil {
+							unresolved = id.Name + "." + k.name
+							return false
+						}
+					}
+					return true
+				})
+				if unresolved != "" {
+					out.Violate(P, "qualified-reference-unresolved", fmt.Sprintf("%s: the reference to %q.%s built by the front end appears as %s, and %s is not declared in the file (no such import)", fname, k.path, k.name, unresolved, strings.SplitN(unresolved, ".", 2)[0]))
 					return out
 				}
 				if len(r.Front.Faults) > 0 || isConstFolded(k.path) {
